@@ -42,6 +42,11 @@ NormAln(a) == IF a = "" THEN ""
                    THEN (IF Len(a) >= 2 /\ Ch(a, 2) = "." THEN SubSeq(a, 1, 2) \o NormIdxList(SubSeq(a, 3, Len(a)))
                          ELSE SubSeq(a, 1, 1) \o NormIdxList(SubSeq(a, 2, Len(a))))
                    ELSE NormIdxList(a)
+\* the documented parts of an alignment text: an optional one-letter prefix with an optional period, then the comma-separated indices
+AlnPrefix(a) == IF a # "" /\ Ch(a, 1) \in Letters THEN (IF Len(a) >= 2 /\ Ch(a, 2) = "." THEN SubSeq(a, 1, 2) ELSE SubSeq(a, 1, 1)) ELSE ""
+RECURSIVE SplitAtCommas(_)
+SplitAtCommas(s) == LET c == IndexOf(s, ",", 1) IN IF c = 0 THEN <<s>> ELSE <<SubSeq(s, 1, c - 1)>> \o SplitAtCommas(SubSeq(s, c + 1, Len(s)))
+AlnIndices(a) == SplitAtCommas(SubSeq(a, Len(AlnPrefix(a)) + 1, Len(a)))
 Mk(kind, v) == [m |-> kind, v |-> v]
 RoleEpis(a) == IF a = "" THEN <<>> ELSE <<Mk("ralign", NormAln(a))>>
 AtomEpis(a) == IF a = "" THEN <<>> ELSE <<Mk("align", NormAln(a))>>
